@@ -1,5 +1,6 @@
 import BqVerif.Model.QasmPrint
 import BqVerif.Proofs.QasmInline
+import BqVerif.Proofs.QasmRegs
 /-! # The writer's statement format is read back (tokens)
 
 For an operation list over gates of the table, the reader applied to the token string of the
@@ -382,7 +383,7 @@ def PLine.Reads (A : Arith V) (table : List BuiltinDef) (n : Nat) (cregs : Regs)
     PLine → Op V → Prop
   | .op o, r => o.Reads A table r ∧ ∀ q ∈ o.loc, q < n
   | .meas q c i, r =>
-    q < n ∧ (∃ sz, regSize cregs c = some sz) ∧ r = .measure [q] [(q, c, i)]
+    q < n ∧ (∃ sz, regSize cregs c = some sz ∧ i < sz) ∧ r = .measure [q] [(q, c, i)]
 
 /-- `Reads` for every line of a program -/
 inductive ReadsAll (A : Arith V) (table : List BuiltinDef) (n : Nat) (cregs : Regs) :
@@ -421,17 +422,19 @@ theorem pStmt_line (l : PLine) (op : Op V) (A : Arith V) (table : List BuiltinDe
   | op o => exact pStmt_op o h.1.shape rest
   | meas q c i => exact pStmt_measure q c i rest
 
-theorem elabStmt_line (A : Arith V) (s : St V) (n : Nat) (hq : s.qregs = [("q", n)]) (l : PLine)
+theorem elabStmt_line (A : Arith V) (s : St V) (n : Nat) (hq : s.qregs = [("q", n)])
+    (hcn : (s.cregs.map Prod.fst).Nodup) (l : PLine)
     (op : Op V) (h : l.Reads A s.table n s.cregs op) :
     elabStmt A s l.stmt = some { s with ops := op :: s.ops } := by
   cases l with
   | op o => exact elabStmt_op A s n hq o op h.1 h.2
   | meas q c i =>
     simp only [PLine.Reads] at h
-    obtain ⟨hqn, ⟨sz, hsz⟩, rfl⟩ := h
+    obtain ⟨hqn, ⟨sz, hsz, hlt⟩, rfl⟩ := h
     have ha := argIndices_q n q hqn
     simp only [qArg] at ha
-    simp [PLine.stmt, elabStmt, elabMeasure, hq, ha, regSize, hsz, qArg]
+    simp [PLine.stmt, elabStmt, elabMeasure, hq, ha, regSize, hsz, qArg,
+      clbitOk_of_lt hcn hsz hlt]
 
 theorem PLine.Reads.loc {A : Arith V} {table : List BuiltinDef} {n : Nat} {cregs : Regs}
     {l : PLine} {op : Op V} (h : l.Reads A table n cregs op) :
@@ -504,13 +507,14 @@ theorem elabStmts_cregs (A : Arith V) :
 
 theorem elabStmts_lines (A : Arith V) (table : List BuiltinDef) (n : Nat) (cregs : Regs)
     (ls : List PLine) (exp : List (Op V)) (h : ReadsAll A table n cregs ls exp) (s : St V)
-    (hq : s.qregs = [("q", n)]) (ht : s.table = table) (hc : s.cregs = cregs) :
+    (hq : s.qregs = [("q", n)]) (ht : s.table = table) (hc : s.cregs = cregs)
+    (hcn : (cregs.map Prod.fst).Nodup) :
     elabStmts A s (ls.map PLine.stmt) = some { s with ops := exp.reverse ++ s.ops } := by
   induction h generalizing s with
   | nil => simp [elabStmts]
   | @cons l op ls es hd _ ih =>
     subst ht; subst hc
-    simp only [List.map_cons, elabStmts, elabStmt_line A s n hq l op hd, Option.bind_some]
+    simp only [List.map_cons, elabStmts, elabStmt_line A s n hq hcn l op hd, Option.bind_some]
     rw [ih { s with ops := op :: s.ops } hq rfl rfl]
     simp
 
@@ -597,7 +601,7 @@ theorem decodeToks_programToksM (A : Arith V) (table : List BuiltinDef) (n : Nat
     List.nil_append]
   rw [elabStmts_cregs A cregs _ (by simpa using hcn)]
   have hel := elabStmts_lines A table n cregs ls exp h
-    { table := table, qregs := [("q", n)], cregs := [] ++ cregs } rfl rfl (by simp)
+    { table := table, qregs := [("q", n)], cregs := [] ++ cregs } rfl rfl (by simp) hcn
   simp only [List.nil_append] at hel ⊢
   rw [hel]
   simp only [Option.bind_some, finish, totalSize, List.map_cons, List.map_nil, List.sum_cons,
